@@ -80,10 +80,21 @@ def _patch(h):
 
 
 def h_load(h, P, N, fault, where, stored="Chebyshev", requested="Chebyshev"):
+    # the pair files exist as (empty) files in a scratch directory, so that code which looks at the
+    # file system first sees the same directory as the stubbed h5py does; removed afterwards
+    import shutil
+    import tempfile
+    scratch = tempfile.mkdtemp(prefix="verif_c14_")
+    try:
+        _h_load(h, P, N, fault, where, stored, requested, pathlib.Path(scratch))
+    finally:
+        shutil.rmtree(scratch, ignore_errors=True)
+
+
+def _h_load(h, P, N, fault, where, stored, requested, directory):
     _patch(h)
     parts = particles(P)
     grid = Grid(3, N, 1.0, 1.0)
-    directory = pathlib.Path("/fake")
     files, data = {}, {}
     k = 0
     for i, a in enumerate(parts):
@@ -99,8 +110,9 @@ def h_load(h, P, N, fault, where, stored="Chebyshev", requested="Chebyshev"):
             d = h.reals(f"c{i}{j}", (size - 1,) * 4, -1, 1, strict=False)
             data[(i, j)] = d
             if not (faulty and fault == "missing"):
-                files[str(directory / f"collisions_{a.name}_{b.name}.hdf5")] = FakeFile(
-                    size, btype, a.name + ", " + b.name, d)
+                path = directory / f"collisions_{a.name}_{b.name}.hdf5"
+                path.touch()
+                files[str(path)] = FakeFile(size, btype, a.name + ", " + b.name, d)
             k += 1
     fake = FakeH5(files)
     h.patch_always(CA, h5py=fake)
